@@ -142,6 +142,50 @@ func runOpOn(r OpReq, ins []tensor.Tensor) Outcome {
 	})
 }
 
+// RunOpReused initialises ONE operator instance with the request's attributes,
+// applies it first to every warm-up input list (outcomes ignored, panics
+// recovered) and then to the request's own inputs; the outcome of that last
+// call is returned. An operator instance carries only its attributes, so what
+// it was applied to before must not matter.
+func RunOpReused(r OpReq, warm [][]*ref.T) Outcome {
+	phase := "lookup"
+	return Capture(&phase, func() ([]tensor.Tensor, error) {
+		op, err := opset13.GetOperator(r.Op)
+		if err != nil {
+			return nil, err
+		}
+		phase = "init"
+		node := &onnx.NodeProto{OpType: r.Op, Name: "n0", Attribute: r.Attrs, Output: r.outNames()}
+		for i := range r.Inputs {
+			if r.Inputs[i] == nil {
+				node.Input = append(node.Input, "")
+			} else {
+				node.Input = append(node.Input, fmt.Sprintf("i%d", i))
+			}
+		}
+		if err := op.Init(node); err != nil {
+			return nil, err
+		}
+		for _, w := range warm {
+			ins := ToTensors(w)
+			_ = Capture(nil, func() ([]tensor.Tensor, error) {
+				vin, err := op.ValidateInputs(ins)
+				if err != nil {
+					return nil, err
+				}
+				return op.Apply(vin)
+			})
+		}
+		phase = "validate"
+		vin, err := op.ValidateInputs(ToTensors(r.Inputs))
+		if err != nil {
+			return nil, err
+		}
+		phase = "apply"
+		return op.Apply(vin)
+	})
+}
+
 // RunOpsShared executes the requests one after another through the operator API
 // (a fresh operator each). Operands that are the same *ref.T in several requests
 // are converted once: every call receives the same tensor object, as a caller
@@ -538,4 +582,21 @@ func (s *Session) Run(feed map[string]*ref.T, outputs []string) Outcome {
 		}
 		return out, nil
 	})
+}
+
+// ProtoFingerprint hashes the deterministic serialisation of the model's decoded
+// proto (hook VerifModelProto): node attributes, attribute tensors and the
+// initializer messages. Operators wrap protobuf slices into tensors, so an
+// in-place write on such a tensor shows up here.
+func ProtoFingerprint(m *gonnx.Model) uint64 {
+	b, err := proto.MarshalOptions{Deterministic: true}.Marshal(m.VerifModelProto())
+	if err != nil {
+		return 0
+	}
+	h := uint64(1469598103934665603)
+	for _, x := range b {
+		h ^= uint64(x)
+		h *= 1099511628211
+	}
+	return h
 }
